@@ -82,9 +82,15 @@ def check_valid_wsgi(wsgi_callable):
     return
 
 
-def _get_all_middlewares(bound_routes):
+def _get_all_middlewares(bound_routes, app_middlewares=()):
     # TODO: use merge_middlewares
     all_mw = []
+
+    # the application's own middlewares count even when no route is
+    # bound yet (routes may be added later with Application.add)
+    for mw in app_middlewares:
+        if mw not in all_mw:
+            all_mw.append(mw)
 
     for broute in reversed(bound_routes):
         for mw in broute.middlewares:
@@ -199,7 +205,7 @@ class Application(object):
         for entry in routes:
             self.add(entry)
 
-        all_mws = _get_all_middlewares(self.routes)
+        all_mws = _get_all_middlewares(self.routes, self.middlewares)
         for mw in reversed(all_mws):
             self._dispatch_wsgi = _safe_wrap_wsgi('middleware', mw, self._dispatch_wsgi)
         return
